@@ -529,12 +529,25 @@ class Statics(Base):
         ne = int(self.mesh.conns.shape[0])
         rb = np.random.Generator(np.random.PCG64(int(cfg['blockseed'])))
         k = min(cfg['nblocks'], ne)
-        lab = rb.integers(0, k, size=ne)
-        lab[:k] = np.arange(k)
-        lab = lab[rb.permutation(ne)]
+        style = str(rb.choice(['random_sorted', 'random_shuffled', 'ranges_sorted', 'ranges_shuffled']))
+        if style.startswith('ranges'):
+            cuts = np.sort(rb.choice(np.arange(1, ne), size=k - 1, replace=False)) if k > 1 else np.array([], dtype=int)
+            lab = np.zeros(ne, dtype=int)
+            for c in cuts:
+                lab[c:] += 1
+        else:
+            lab = rb.integers(0, k, size=ne)
+            lab[:k] = np.arange(k)
+            lab = lab[rb.permutation(ne)]
         names = ['b%d' % i for i in range(k)]
         order = list(rb.permutation(k))
-        blocks = {names[i]: jnp.asarray(np.flatnonzero(lab == i)) for i in order}
+        blocks = {}
+        for i in order:
+            ids = np.flatnonzero(lab == i)
+            if style.endswith('shuffled'):
+                ids = ids[rb.permutation(len(ids))]     # element ids of a block in arbitrary order
+            blocks[names[i]] = jnp.asarray(ids)
+        self.ctx.probe('block_style:' + style)
         mesh_b = self.mesh._replace(blocks=blocks)
         fs_b = L['FS'].construct_function_space(mesh_b, self.quad)
         models = {names[i]: self.mat for i in order}
